@@ -709,12 +709,16 @@ class Inliner:
                 callee, recv_self = inl._target(fi, node)
                 if callee is None or depth > 3:
                     return node
-                b = inl._bind(callee, node, recv_self)
+                recv_name = inl._recv_name.get(id(node))
+                b = inl._bind(callee, node, recv_self or recv_name is not None)
                 if b is None:
                     return node
                 e = inl.expr_value_of(callee)
                 if e is None:
                     return node
+                if recv_name is not None:
+                    # a method of a dissolved helper object: `self` inside the helper is that local
+                    e = _Rename({"self": ast.Name(id=recv_name, ctx=ast.Load())}).visit(copy.deepcopy(e))
                 inl.expanded[callee.qualname] = inl.expanded.get(callee.qualname, 0) + 1
                 if any(k.startswith("**") for k in b):
                     return node   # pass-through keyword dictionaries are only handled in statement position
@@ -907,6 +911,8 @@ class Inliner:
             if ast.dump(new) != before:
                 from .model import _SplitTupleAssign, _dissolve_records_in
                 _dissolve_records_in(ast.Module(body=[new], type_ignores=[]))
+                from .model import _splat_literal_tuples as _slt
+                _slt(ast.Module(body=[new], type_ignores=[]))
                 new = _SplitTupleAssign().visit(new)
                 _propagate_copies(new)
                 _sink_temp_copies(new)
